@@ -231,7 +231,7 @@ fn real_time_sanity(ctx: &Ctx, seed: u64) {
 
 pub fn run(tier: Tier, seed: u64) -> i32 {
     let ctx = Ctx::new("C06", tier, seed, "exploration");
-    let n = tier.pick(12_000, 200_000);
+    let n = tier.pick(12_000, 1_000_000);
     let shards = 64;
     par_shards(shards, crate::util::n_threads(), |sh| {
         let mut b = Batch::default();
